@@ -1103,7 +1103,7 @@ def first_provision_matrix(rng, tier):
         created = setup_pairs(h, rng, kinds, whitelist=[other_wl, wl_user], mins=(m0, m1), comm=3 * 10 ** 15, provide=False)
         for i, p in enumerate(created):
             a0, a1 = h.pair_assets(p)
-            good = (max(m0, 1) * 3, max(m1, 1) * 5)
+            good = (max(m0, 1000) * 3, max(m1, 1000) * 5)      # sizeable whatever the minimums, so that later shares are not zero
             def prov(c, n0, n1, rcv):
                 return h.do(("provide", p, c, funds_for([(a0, n0), (a1, n1)]), a0, n0, a1, n1, None, rcv))
             # attempts the contract must refuse while the pool is empty (whoever the receiver is)
